@@ -122,7 +122,8 @@ static const char* const SCHEMES[] = {"a", "http", "HTTP", "hTtP", "a+b-c.d", "x
     "URL", "url", "Url", "FILE", "File", "https", "ftp", "mailto", "urn", "data", "ws", "javascript", "localhost", "about", "view-source", "jar", "blob", "s3", "git+ssh", "uri", "URI", "c", "C", "d"};
 static const char* const USERS[] = {"", "u", "user:pw", "a:1", "%41%7e", "U%3a", "a;b=c", "1", ":", "%7Euser", "%c3%a4"};
 static const char* const REGNAMES[] = {"localhost", "LOCALHOST", "localhost.", "example.com.", "0", "0x7f.0.0.1", "1.2.3.4.", "xn--bcher-kva.example", "-", "a_b", "", "h", "example.com", "EXAMPLE.COM", "ex%41mple", "%7Ehost", "h%3A", "H%3a", "a.b-c_d~e", "1.2.3.04", "256.1.1.1",
-    "1.2.3", "1.2.3.4.5", "999", "01.2.3.4", "1.2.3.4a", "%c3%A4", "x%2Ey", "A%2d", "www.%45xample.org", "1.2.3.256", "a", "localhost"};
+    "1.2.3", "1.2.3.4.5", "999", "01.2.3.4", "1.2.3.4a", "%c3%A4", "x%2Ey", "A%2d", "www.%45xample.org", "1.2.3.256", "a", "localhost",
+    "www", "www.example.com", "WWW.Example.COM", "example.org", "127.0.0.1.", "1.2.3.%34", "%31.2.3.4", "localhost.localdomain", "a.b.c.d", "..", ".", "h.", ".h", "h..h", "xn--", "0.0.0.0.", "255.255.255.256", "1.1.1.1a", "host_name", "~", "%2e", "%2E%2E"};
 static const char* const IP4S[] = {"1.2.3.4", "255.255.255.255", "0.0.0.0", "10.0.0.1", "192.168.100.249", "250.199.99.9", "127.0.0.1",
     // one address of every text length 7..15, and the octet values around the decimal-width and range boundaries
     "1.2.3.44", "1.2.33.44", "1.22.33.44", "11.22.33.44", "111.22.33.44", "111.222.33.44", "111.222.133.44", "111.222.133.144", "9.10.99.100", "199.200.249.250", "100.101.25.26", "255.0.255.0", "192.0.2.1"};
@@ -138,11 +139,14 @@ static Str gen_future(Rng& rng) {     // 'v' 1*HEXDIG '.' 1*( unreserved / sub-d
     for (int i = 0, n = rng.range(1, 9); i < n; i++) s += cs[rng.below(sizeof cs - 1)];
     return s;
 }
-static const char* const PORTS[] = {"", "80", "0", "65536", "00080", "1", "443", "65535", "99999", "4294967296", "99999999999999999999", "2147483648"};
+static const char* const PORTS[] = {"", "80", "0", "65536", "00080", "1", "443", "65535", "99999", "4294967296", "99999999999999999999", "2147483648", "8080", "21", "22", "25", "080", "0443", "65534", "65537", "2147483647", "4294967295", "0000000000000000000080"};
 static const char* const SEGS[] = {"C:", "c%7C", "URL:x", "file:", "%00", ".git", "~user", "", ".", "..", "a", "b", "b:c", "%2e", "%2E", "%41", "%7E", "%7e", "%3a", "%3A", "x;y", "a=b", "@", ":", "...", ".a", "a.", "~",
-    "A", "%2e%2e", ".%2E", "c%2Fd", "%2F", "a%20b", "c", "d", "%61", "a:", ":a", "%C3%A4", "%c3%a4", "-", "_", "a+b", "a,b", "!$&'()*+,;="};
+    "A", "%2e%2e", ".%2E", "c%2Fd", "%2F", "a%20b", "c", "d", "%61", "a:", ":a", "%C3%A4", "%c3%a4", "-", "_", "a+b", "a,b", "!$&'()*+,;=",
+    // names and adjacent pairs that real-world special cases key on
+    "index.html", "index.htm", "robots.txt", ".well-known", "cgi-bin", "favicon.ico", "..;", "..;x", ";", ";v=1", "~~", "....", "a..b", "..a", "a..", "%2e.", "%25", "%2525", "%252e", "%252E%252E", "::", "a::", "=", "&", "a=b&c=d", "+", "*", "%7euser", "%7Euser",
+    "localhost", "www", "80", "443", "C%3A", "c|", "%5C", "%00x", "x%00", "%FF", "%ff", "%80", "%7F", "%7f", "%20", "%0D%0A", "%0a"};
 static const char* const DOTSEGS[] = {"", ".", "..", "a", "b", "b:c", "", ".", "..", "%41", ":", "c", "..", ".", "x:"};
-static const char* const QUERIES[] = {"", "q", "a=b&c=d", "/?", "%41%3a%2f", "q?x/y", "%7e", "%7E", "a%20b", "x=%c3%a4", ":@", "?"};
+static const char* const QUERIES[] = {"", "q", "a=b&c=d", "/?", "%41%3a%2f", "q?x/y", "%7e", "%7E", "a%20b", "x=%c3%a4", ":@", "?", "a+b", "a=1&a=2", "&", "=", "&&", "a=&b", "%26=%3D", "q=%2525", "..", "../x", "a=b;c=d", "%0D%0A"};
 #define PICK(arr, rng) Str(arr[(rng).below((uint32_t)(sizeof(arr) / sizeof(arr[0])))])
 
 static size_t huge_length(Rng& rng) { static const size_t H[] = {65535, 65536, 65537, 70000, 65534, 32768, 32767}; return H[rng.below(rng.chance(2, 3) ? 4 : 7)]; }
